@@ -466,6 +466,13 @@ class Engine:
             h = min(h, lim / dj)
         return h
 
+    def event_groups(self):
+        """[(values, constant?, fraction)]: nothing in a group may move by more than `fraction` of the group's smallest relevant gap"""
+        ev = self.events()
+        if isinstance(ev, tuple):
+            ev = [ev]
+        return [(np.asarray(g[0], dtype=float), np.asarray(g[1], dtype=bool), g[2] if len(g) > 2 else 1.0 / 16.0) for g in ev]
+
     def differences(self, inf, p, x0, f0):
         x = arr(x0).reshape(-1)
         out = []
@@ -480,24 +487,32 @@ class Engine:
                 self.lab("skipped:no_room")
                 continue
             if self.events is not None:
-                e0, const = self.events()
-                e0 = np.asarray(e0, dtype=float)
-                gap = event_gap(e0, const)
-                if not gap > 0:
+                # groups of (values, constant?) - event times, and quantities that must keep their distance from a singular value
+                # (growth rate and 0); within each group nothing moves by more than 1/16 of the group's smallest relevant gap
+                g0 = self.event_groups()
+                gaps = [event_gap(e, c) for e, c, _ in g0]
+                if not all(gp > 0 for gp in gaps):
                     self.lab("skipped:tie")
                     continue
-                for _ in range(6):
+                ok = False
+                g1 = g2 = g0
+                for _ in range(8):
                     setx(h, d)
-                    e1 = np.asarray(self.events()[0], dtype=float)
+                    g1 = self.event_groups()
                     setx(-h, d)
-                    e2 = np.asarray(self.events()[0], dtype=float)
-                    move = max(float(np.max(np.abs(e1 - e0))) if e0.size else 0.0, float(np.max(np.abs(e2 - e0))) if e0.size else 0.0)
-                    if move <= gap / 16.0:
+                    g2 = self.event_groups()
+                    ratio = 0.0
+                    for (e, _c, fr), (a, _, _), (b, _, _), gp in zip(g0, g1, g2, gaps):
+                        if e.size and math.isfinite(gp):
+                            ratio = max(ratio, float(np.max(np.abs(a - e))) / (gp * fr), float(np.max(np.abs(b - e))) / (gp * fr))
+                    if ratio <= 1.0:
+                        ok = True
                         break
-                    h *= 0.9 * (gap / 16.0) / move
+                    h *= 0.9 / ratio
                 setx(0.0, d)
-                if move > gap / 16.0 or not np.array_equal(np.argsort(e1, kind="stable"), np.argsort(e0, kind="stable")) \
-                        or not np.array_equal(np.argsort(e2, kind="stable"), np.argsort(e0, kind="stable")):
+                same = all(np.array_equal(np.argsort(a, kind="stable"), np.argsort(e, kind="stable"))
+                           and np.array_equal(np.argsort(b, kind="stable"), np.argsort(e, kind="stable")) for (e, _c, _f), (a, _, _), (b, _, _) in zip(g0, g1, g2))
+                if not ok or not same:
                     self.lab("skipped:event_order")
                     continue
 
@@ -506,6 +521,9 @@ class Engine:
                 return self.value()
 
             g, err, meta = numdiff.derivative(f, h)
+            rough = None
+            if meta["finite"] and err > 1e-4 * max(1.0, abs(g)) and meta["noise"] <= 0.1 * err:
+                rough = h  # examined by the interval check (see compare)
             for _ in range(2):
                 # the step was chosen from the size of the parameter; if the value varies on a shorter scale the tableau says so
                 # (large correction, little round-off): restart with a smaller step
@@ -517,9 +535,76 @@ class Engine:
                 h /= 8.0
                 g, err, meta = g2, err2, meta2
             setx(0.0, d)
-            out.append({"dir": name, "d": d, "fd": g, "err": err, "noise": meta["noise"], "h": meta["h"], "h0": h, "finite": meta["finite"]})
+            out.append({"dir": name, "d": d, "fd": g, "err": err, "noise": meta["noise"], "h": meta["h"], "h0": h, "finite": meta["finite"], "rough": rough})
         p.tensor = x0.clone()
         return out
+
+    def autodiff_at(self, inf, x0, d, t):
+        """directional derivative by back-propagation at the point x0 + t d (None if it cannot be obtained)"""
+        p = self.leaf_of[inf["id"]]
+        x = (x0.detach().reshape(-1) + t * torch.as_tensor(d, dtype=x0.dtype)).reshape(x0.shape).clone().requires_grad_(True)
+        p.tensor = x
+        v = total(self.target)
+        if not v.requires_grad:
+            return 0.0
+        try:
+            v.backward()
+        except RuntimeError:
+            return None
+        if x.grad is None:
+            return None
+        return float(np.dot(arr(x.grad).reshape(-1), d))
+
+    GL5 = ([-0.906179845938664, -0.5384693101056831, 0.0, 0.5384693101056831, 0.906179845938664],
+           [0.23692688505618908, 0.47862867049936647, 0.5688888888888889, 0.47862867049936647, 0.23692688505618908])
+
+    def interval_check(self, inf, r, x0):
+        """the first tableau over [-H, H] was inconsistent although the value is evaluated accurately: either the value varies on a
+        much shorter scale (smooth) or it has a jump / kink inside the stencil.  The gradient is the derivative of the reported value
+        on the interval iff it integrates to the difference of the values: composite Gauss-Legendre quadrature (1, 2, 4, 8 panels of 5
+        nodes, until two successive results agree much better than they disagree with the difference) of the back-propagated
+        directional derivative against f(H) - f(-H).  Returns a detail dict on disagreement, "open" if the quadrature does not settle,
+        None otherwise."""
+        p = self.leaf_of[inf["id"]]
+        keep = p.tensor
+        H, d = r["rough"], r["d"]
+        shape = x0.shape
+        try:
+            def f(t):
+                p.tensor = (x0.detach().reshape(-1) + t * torch.as_tensor(d, dtype=x0.dtype)).reshape(shape)
+                return self.value()
+
+            fb, fa = f(H), f(-H)
+            if not (math.isfinite(fb) and math.isfinite(fa)):
+                return None
+            diff = fb - fa
+            prev = None
+            gmax = 0.0
+            for m in (1, 2, 4, 8):
+                q = 0.0
+                w = H / m
+                for k in range(m):
+                    mid = -H + (2 * k + 1) * w
+                    for u, wt in zip(*self.GL5):
+                        v = self.autodiff_at(inf, x0, d, mid + u * w)
+                        if v is None or not math.isfinite(v):
+                            return None
+                        gmax = max(gmax, abs(v))
+                        q += w * wt * v
+                scale = max(abs(diff), 2.0 * H * gmax, 1e-300)
+                if prev is not None:
+                    unc = abs(q - prev)
+                    gap = abs(q - diff)
+                    if unc <= max(1e-7 * scale, 0.05 * gap):
+                        tol = 1e-5 * scale + 4.0 * unc + 64.0 * EPS * max(abs(fa), abs(fb))
+                        if gap > tol:
+                            return {"half_width": H, "value_difference": diff, "integral_of_gradient": q, "panels": m,
+                                    "quadrature_change_last_refinement": unc}
+                        return None
+                prev = q
+            return "open"
+        finally:
+            p.tensor = keep
 
     def confirm(self, inf, r, x0, bad):
         """a tentative disagreement is re-examined with two other, unrelated step sequences (rounding errors of the value can be
@@ -568,6 +653,13 @@ class Engine:
             if not r["finite"]:
                 self.lab("fd_value_not_finite")
                 continue
+            if r.get("rough") and g is not None:
+                bad = self.interval_check(inf, r, x0)
+                self.lab("interval_check")
+                if bad == "open":
+                    self.lab("interval_check_open")
+                elif bad is not None:
+                    self.fail(inf, "interval_mismatch", dict(bad, direction=r["dir"], x=arr(x0).reshape(-1)[:12].tolist()))
             fd, err = r["fd"], r["err"]
             if err > 1e-4 * max(1.0, abs(fd)):
                 self.lab("fd_inconclusive")
@@ -827,7 +919,7 @@ TREE_KINDS = ["time", "ratio", "shift"]
 
 @st.composite
 def coal_cases(draw):
-    c = draw(c08.case(nmax=12))
+    c = draw(c08.case(models=c08.MODELS + ["exponential"], nmax=12))
     c["batch"] = 0
     c.pop("scales", None)
     n = len(c["g"]["s"])
@@ -836,8 +928,16 @@ def coal_cases(draw):
     c["calendar"] = draw(st.booleans())
     c["kind"] = draw(st.sampled_from(TREE_KINDS))
     c["grid_param"] = draw(st.booleans())
+    if c["p"]["model"] == "exponential" and draw(st.booleans()):
+        # slow growth / decline: a valid interior point next to the removable singularity of (exp(g t1) - exp(g t0)) / g
+        c["p"]["growth"] = [draw(st.sampled_from([-1.0, 1.0])) * draw(logu(SMALL_GROWTH[0], SMALL_GROWTH[1]))]
     c["ex"] = draw(extras())
     return c
+
+
+# growth rates this close to zero are generated on purpose; below the lower end the shipped formula loses its digits to cancellation
+# (the value and its gradient, NaN at exactly 0: documented TODO in the source), which is C08's exclusion as well
+SMALL_GROWTH = (1e-6, 1e-4)
 
 
 def prepare_coal(c):
@@ -915,6 +1015,9 @@ def coal_events(dic, c):
             gv = arr(m.grid.tensor).reshape(-1).tolist()
             e += gv
             const += [not c.get("grid_param")] * len(gv)
+        if hasattr(m, "growth"):
+            # the growth rate must keep its sign (0 is a singular point of the formula) and, when small, its order of magnitude
+            return [(e, const), (arr(m.growth.tensor).reshape(-1).tolist() + [0.0], [False, True], 0.45)]
         return e, const
     return ev
 
@@ -1139,8 +1242,19 @@ def prepare_genealogy(g, sep):
 
 @st.composite
 def gmrf_cases(draw):
-    what = draw(st.sampled_from(["gmrf", "gmrf", "integrated", "coalint"]))
+    what = draw(st.sampled_from(["gmrf", "gmrf", "integrated", "coalint", "covariate"]))
     c = {"what": what, "ex": draw(extras()), "kind": draw(st.sampled_from(TREE_KINDS))}
+    if what == "covariate":
+        # skygrid with covariates: field of length N, design matrix [N, P], effect sizes [P], precision
+        n = draw(st.integers(2, 10))
+        k = draw(st.integers(1, 3))
+        c["variant"] = "plain"
+        c["x"] = [draw(fl(-3.0, 3.0)) for _ in range(n)]
+        c["Z"] = [[draw(fl(-2.0, 2.0)) for _ in range(k)] for _ in range(n)]
+        c["coef"] = [draw(fl(-2.0, 2.0)) for _ in range(k)]
+        c["tau"] = draw(logu(1e-3, 1e3))
+        c["Z_as"] = draw(st.sampled_from(["list", "param", "param"]))
+        return c
     if what == "coalint":
         c["g"] = draw(gc.genealogies(2, 10))
         c["alpha"] = draw(logu(1e-3, 1e2))
@@ -1178,6 +1292,15 @@ def body_gmrf(c):
         cls = "ConstantCoalescentIntegratedModel"
         specs.append({"id": "target", "type": cls, "alpha": c["alpha"], "beta": c["beta"], "tree_model": "tree"})
         variant = "tree"
+    elif what == "covariate":
+        cls = "GMRFCovariate"
+        variant = "covariates:" + c["Z_as"]
+        spec = {"id": "target", "type": cls, "field": tt.P("field", c["x"]), "precision": tt.P("gmrf.precision", [c["tau"]]),
+                "beta": tt.P("gmrf.beta", c["coef"]), "covariates": c["Z"] if c["Z_as"] == "list" else tt.P("gmrf.covariates", c["Z"])}
+        infos += [info("field", cls, "field", "real"), info("gmrf.precision", cls, "precision", "pos"), info("gmrf.beta", cls, "beta", "real")]
+        if c["Z_as"] == "param":
+            infos.append(info("gmrf.covariates", cls, "covariates", "real"))
+        specs.append(spec)
     else:
         cls = "GMRF" if what == "gmrf" else "GMRFGammaIntegrated"
         variant = c["variant"]
@@ -1395,7 +1518,7 @@ def joint_cases(draw):
     c = draw(phylo.like_case(families=("nucleotide",), nmax=6, tree_kinds=("time", "ratio", "ratio", "shift")))
     c["rescale"] = draw(st.booleans())
     c["coal"] = {"model": draw(st.sampled_from(c08.MODELS + ["none"])), "theta": [draw(logu(1e-2, 1e2)) for _ in range(8)],
-                 "growth": draw(st.sampled_from([-1.0, 1.0])) * draw(logu(1e-3, 1.0)), "gridf": [draw(fl(0.05, 1.5)) for _ in range(5)], "m": draw(st.integers(2, 6))}
+                 "growth": draw(st.sampled_from([-1.0, 1.0])) * draw(st.one_of(logu(1e-3, 1.0), logu(1e-3, 1.0), logu(SMALL_GROWTH[0], SMALL_GROWTH[1]))), "gridf": [draw(fl(0.05, 1.5)) for _ in range(5)], "m": draw(st.integers(2, 6))}
     c["with"] = {k: draw(st.booleans()) for k in ("priors", "ctmc", "gmrf", "tree_jacobian", "tp_jacobians")}
     c["field"] = [draw(fl(-2.0, 2.0)) for _ in range(8)]
     c["tau"] = draw(logu(1e-2, 1e2))
@@ -1484,7 +1607,10 @@ def body_joint(c0):
 
     def events():
         e = arr(dic["tree"].node_heights).reshape(-1).tolist()
-        return e + (grid or []), [True] * n + [False] * (n - 1) + [True] * len(grid or [])
+        groups = [(e + (grid or []), [True] * n + [False] * (n - 1) + [True] * len(grid or []))]
+        if model == "exponential":
+            groups.append((arr(dic["coal"].growth.tensor).reshape(-1).tolist() + [0.0], [False, True], 0.45))
+        return groups
 
     eng = Engine(res, dic, dic["joint"], infos, ex, events, tags)
     like_labels(eng, c)
